@@ -287,4 +287,32 @@ theorem safe_sound (prog : List Stmt) (hs : safe prog = true) (n fuel : Nat) (pl
       obtain ⟨l, hl, _⟩ := hp
       simp at hl
 
+
+/-- what `deadlineBeforeWrites` says: whichever call writes (is neither a dial, a close nor a
+    deadline setting), a call that sets a write deadline stands before it in the list -/
+theorem deadlineBeforeWrites_sound (cs : List String) (b : Bool) (h : deadlineBeforeWrites b cs = true)
+    (pre : List String) (w : String) (post : List String) (hcs : cs = pre ++ w :: post)
+    (hw : connQuiet w = false) (hwb : connBounds w = false) :
+    b = true ∨ ∃ d ∈ pre, connBounds d = true := by
+  induction pre generalizing cs b with
+  | nil =>
+    subst hcs
+    simp only [List.nil_append, deadlineBeforeWrites, hwb, hw] at h
+    simp at h
+    exact Or.inl h.1
+  | cons c pre ih =>
+    subst hcs
+    simp only [List.cons_append, deadlineBeforeWrites] at h
+    by_cases hc : connBounds c = true
+    · exact Or.inr ⟨c, by simp, hc⟩
+    · simp only [hc] at h
+      by_cases hq : connQuiet c = true
+      · simp only [hq] at h
+        rcases ih (pre ++ w :: post) b (by simpa using h) rfl with h1 | ⟨d, hd, hdb⟩
+        · exact Or.inl h1
+        · exact Or.inr ⟨d, by simp [hd], hdb⟩
+      · simp only [hq] at h
+        simp at h
+        exact Or.inl h.1
+
 end MtailVerif.ExportLocks
